@@ -49,7 +49,7 @@ def switch_latest_(
             with source.lock:
                 latest[0] += 1
                 _id = latest[0]
-            has_latest[0] = True
+                has_latest[0] = True
             inner_subscription.disposable = d
 
             # Check if Future or Observable
@@ -67,18 +67,23 @@ def switch_latest_(
                     observer.on_error(e)
 
             def on_completed() -> None:
-                if latest[0] == _id:
+                with source.lock:
+                    if latest[0] != _id:
+                        return
                     has_latest[0] = False
-                    if is_stopped[0]:
-                        observer.on_completed()
+                    stopped = is_stopped[0]
+                if stopped:
+                    observer.on_completed()
 
             d.disposable = obs.subscribe(
                 on_next, on_error, on_completed, scheduler=scheduler
             )
 
         def on_completed() -> None:
-            is_stopped[0] = True
-            if not has_latest[0]:
+            with source.lock:
+                is_stopped[0] = True
+                done = not has_latest[0]
+            if done:
                 observer.on_completed()
 
         subscription = source.subscribe(
